@@ -133,3 +133,8 @@ func vh_C01_two_routes_Q() { vhC01(1, 2, -1, -1, 2) }
 
 // one controller with a slash-rich prefix x two plain routes: path items shared between verbs
 func vh_C01_two_routes_slashes_Q() { vhC01(1, 2, 1, -1, 2) }
+
+// thorough tier
+func vh_C01_norm_T()               { vhC01(1, 1, 2, 2, 5) }
+func vh_C01_two_ctrl_T()           { vhC01(2, 1, -1, 1, 3) }
+func vh_C01_two_routes_slashes_T() { vhC01(1, 2, 1, 1, 2) }
